@@ -160,6 +160,12 @@ def _periodic(ctx, cls, loop: SolveLoop, col):
         cad = [c for c in conj if _is_cadence(c)]
         rest = [c for c in conj if c not in en and c not in cad]
         ok = bad_shape is None and len(cad) == 1 and not rest
+        # a guard that is a call of one of the solver's own methods (a predicate helper that could not be inlined) hides the
+        # cadence: neither conformance nor a deviation can be shown
+        opaque = [c for c in rest if any(isinstance(x, ast.Call) and self_call_name(x) for x in ast.walk(c))]
+        if not ok and opaque and bad_shape is None:
+            raise AnalysisError(f"{construct}: the periodic save is guarded by `{ast.unparse(opaque[0])}`, a predicate method this rule cannot "
+                                "read (not inlined); R12.1 cannot be decided")
         # the enabled test may be omitted: save() itself returns early when not enabled, but then
         # the modulus would be evaluated with frequency 0 -> require it
         if ok and not en:
